@@ -1002,7 +1002,10 @@ impl fmt::Display for PreExp {
                 }
             }
             Self::Variable(name) => {
-                if name.contains('_') {
+                // leading underscores belong to a simple variable (`__t`, `_c1`), only an
+                // inner underscore means this was written as an escaped compound name
+                let body = name.trim_start_matches('$').trim_start_matches('_');
+                if body.contains('_') {
                     //in case this is a escaped variable
                     format!("\\{}", **name)
                 } else {
